@@ -115,6 +115,7 @@ func runC14(c c14Case) outcome {
 		})
 	}
 	panics := s.Run(5 * time.Second)
+	s.OnPoint = nil // the cache's executor closure references the scheduler: do not let it reference the *Cache back
 	if s.Hang {
 		o.Inconcl = true
 		return o
